@@ -86,7 +86,9 @@ PickValues ==
                     \o (IF shape.chp THEN (IF h % 3 = 0 THEN <<Prod(3, "EL_COGEN", [t \in 1..n |-> chv[t] - (chv[t] \div 2)]),
                                                                Prod(6, "EL_COGEN", [t \in 1..n |-> chv[t] \div 2])>>
                                            ELSE <<Prod(3, "EL_COGEN", chv)>>)
-                                          \o <<Used(3, Fuels[gi], "COGEN", [t \in 1..n |-> 2 * chv[t] + t])>> ELSE <<>>)
+                                          \o <<Used(3, Fuels[gi], "COGEN", [t \in 1..n |-> 2 * chv[t] + t])>>
+                                          \* the cogenerator may also take electricity as an input (its own consumption)
+                                          \o (IF (h \div 7) % 5 = 0 THEN <<Used(3, "ELECTRICIDAD", "COGEN", Const(1))>> ELSE <<>>) ELSE <<>>)
                     \o (IF shape.th THEN <<Used(4, "EAMBIENTE", "ACS", Const(1)), Prod(4, "EAMBIENTE", [t \in 1..n |-> t]),
                                            Used(5, "RED1", "CAL", Const(1)), Need("ACS", Const(3))>> ELSE <<>>)
                     \* auxiliary electricity (as it is after the assignment of services: the gas boiler serves CAL only,
